@@ -12,6 +12,13 @@ var notApplicable = map[string]string{
 	"C18": "correctness of cursor positions and range scans is a relation between runtime tree contents and probe keys; no structural clause that is both statically checkable and a genuine necessary condition was found beyond C29 (comparison order)",
 }
 
+// claimed lists the properties whose checks are complete enough to claim: rules built, both-ways
+// self-test passing, quiet or triaged on the pinned tree. A registered but unclaimed property is
+// listed as not applicable with the pending reason (it can still be run by hand).
+var claimed = map[string]bool{
+	"C01": true, "C02": true, "C08": true, "C16": true, "C22": true, "C23": true, "C24": true,
+}
+
 // pending: designed in DESIGN.md but whose rules are not built yet (kept honest: not claimed).
 const pendingReason = "static rules designed in DESIGN.md section 4 but not implemented yet; not claimed until they exist and pass the both-ways self-test"
 
@@ -45,6 +52,10 @@ func emitManifest() {
 	var na []map[string]string
 	for _, id := range allPropertyIDs() {
 		p := registry[id]
+		if p != nil && !claimed[id] {
+			na = append(na, map[string]string{"property_id": id, "reason": "static rules are implemented in /verif/checker but the violations they report on the pinned tree are still being triaged (genuine defect vs. rule error); not claimed until that is settled"})
+			continue
+		}
 		if p == nil {
 			reason, ok := notApplicable[id]
 			if !ok {
